@@ -91,6 +91,28 @@ Section Statements.
     split; [assumption|apply le_n].
   Qed.
 
+  (** Progress: a merge that has not returned has an item in flight ([root_ok]: the states
+      the root task goes through, preserved by every step). *)
+  Theorem C07_schedule_progress : forall f e,
+    root_ok f e -> (forall trees, e <> EWritten trees) ->
+    exists p, in_flight e = Some p /\ valid p e = true.
+  Proof. exact progress. Qed.
+
+  (** Total correctness of the concurrent merger model: every schedule that never idles
+      (each step completes an item in flight until the merge has returned) and is at least
+      [read_work - 1] long returns exactly the recursive directory merge; and such schedules
+      exist (completing the first item in flight each time). *)
+  Theorem C07_schedule_total : forall (ts : list tree) (schedule : list (list N)),
+    Nat.odd (length ts) = true -> busy accept content_merge (ERead ts) schedule ->
+    (read_work accept (max_tdepth ts) ts <= S (length schedule))%nat ->
+    run accept content_merge ts schedule = EWritten (merge_dir_full accept content_merge ts).
+  Proof. exact (busy_schedule_total accept content_merge). Qed.
+  Theorem C07_schedule_exists : forall ts : list tree, Nat.odd (length ts) = true ->
+    let schedule := canonical accept content_merge (read_work accept (max_tdepth ts) ts) (ERead ts) in
+    busy accept content_merge (ERead ts) schedule
+    /\ run accept content_merge ts schedule = EWritten (merge_dir_full accept content_merge ts).
+  Proof. exact (canonical_schedule_total accept content_merge). Qed.
+
   (** merge_no_resolve (flatten + simplify) keeps the net count of every tree, hence of
       every value at every path. *)
   Theorem C07_merge_no_resolve_den : forall (mm : list (list tree)) p v,
@@ -201,6 +223,8 @@ Proof. vm_compute. repeat split. congruence. Qed.
 Print Assumptions C07_pathwise.
 Print Assumptions C07_schedule_independent.
 Print Assumptions C07_schedule_bounded.
+Print Assumptions C07_schedule_total.
+Print Assumptions C07_schedule_exists.
 Print Assumptions C07_resolve_keeps_resolved.
 Print Assumptions C07_clash.
 Print Assumptions C07_conflict_free_iff.
